@@ -554,19 +554,24 @@ class Engine:
     def e_Call(self, e, st):
         out = []
         for s, f in self.eval(e.func, st):
-            arg_exprs = list(e.args)
-            if any(isinstance(a, ast.Starred) for a in arg_exprs):
-                raise OutOfSubset("star-args", e)
-            kw_names = [k.arg for k in e.keywords]
-            if any(k is None for k in kw_names):
-                raise OutOfSubset("**kwargs call", e)
+            arg_exprs = [a.value if isinstance(a, ast.Starred) else a for a in e.args]
+            starred = [isinstance(a, ast.Starred) for a in e.args]
+            kw_names = [k.arg if k.arg is not None else '**' for k in e.keywords]
+            if kw_names.count('**') > 1:
+                raise OutOfSubset("several ** in a call", e)
             for s2, vs in self.eval_seq(arg_exprs + [k.value for k in e.keywords], s):
-                args = vs[:len(arg_exprs)]
+                args = [Obj('star', {'of': v}) if st_ else v for v, st_ in zip(vs[:len(arg_exprs)], starred)]
                 kwargs = dict(zip(kw_names, vs[len(arg_exprs):]))
+                if any(starred) or '**' in kwargs:
+                    # only contracts that say how to treat an argument pack accept it
+                    if not getattr(self.contract, 'accepts_star', lambda f: False)(f):
+                        raise OutOfSubset("star-args", e)
                 out.extend(self.call(s2, f, args, kwargs, e))
         return out
 
     def call(self, st, f: SV, args, kwargs, node) -> List[Tuple[State, SV]]:
+        if isinstance(f, ZV) and f.ty == 'val' and hasattr(self.contract, 'call'):
+            pass
         h = self.contract.call(self, st, f, args, kwargs, node)
         if h is not None:
             return h
